@@ -24,8 +24,10 @@ exec 9>"$B/.lock"
 flock 9
 
 log="$B/build.log"
+# configuration key: repo, explicit engine list, and the set of engines that register checks
+cfgkey="$REPO|${VERIF_ENGINES:-}|$(cd "$VERIF_ROOT" && ls engines/*/checks.json 2>/dev/null | tr '\n' ' ')"
 do_build() {
-  if [ ! -f "$B/build.ninja" ] || [ "$(cat "$B/.repo" 2>/dev/null)" != "$REPO|${VERIF_ENGINES:-}" ]; then
+  if [ ! -f "$B/build.ninja" ] || [ "$(cat "$B/.repo" 2>/dev/null)" != "$cfgkey" ]; then
     if [ "$(cut -d'|' -f1 "$B/.repo" 2>/dev/null)" != "$REPO" ]; then
       rm -rf "$B/CMakeCache.txt" "$B/CMakeFiles"
     fi
@@ -36,7 +38,7 @@ do_build() {
       -Dnlohmann_json_DIR=/root/miniconda/share/cmake/nlohmann_json \
       -DVERIF_ENGINES="${VERIF_ENGINES:-}" \
       -DCMAKE_EXPORT_COMPILE_COMMANDS=OFF || return 2
-    echo "$REPO|${VERIF_ENGINES:-}" > "$B/.repo"
+    echo "$cfgkey" > "$B/.repo"
   fi
   if [ ${#targets[@]} -eq 0 ]; then
     cmake --build "$B" -j "$JOBS" || return 2
